@@ -763,11 +763,33 @@ def _alias_chain_target(model, nsn, t, depth=0):
     return nsn, t, nul
 
 
+def _xparents(model):
+    """(ns, name) of the types that are an ancestor-or-self of the parent of a type in ANOTHER namespace: the compiler
+    populates them on demand while the child's namespace is processed, possibly before the aliases of their own
+    namespace have been resolved"""
+    out = set()
+    for ns, d in sg.iter_types(model):
+        if d.parent is not None and d.parent.ns is not None and d.parent.ns != ns.name:
+            cur = sg.parent_of(model, ns.name, d)
+            n = 0
+            while cur is not None and cur[1] is not None and n < 30:
+                out.add((cur[0], cur[1].name))
+                cur = sg.parent_of(model, cur[0], cur[1])
+                n += 1
+    return out
+
+
+def _a15_slots(model, early):
+    xp = _xparents(model)
+    return [s for s in plain_slots(model, ('field', 'tag', 'arg', 'result', 'error'))
+            if ((model.namespaces[s[0]].name, model.namespaces[s[0]].defs[s[1]].name) in xp) == early]
+
+
 @rule('A15', 'nullable of a nullable: `A?` where alias A (possibly through further aliases) is already nullable; '
       'written in a field / tag / route type')
 class _A15:
     def sites(model):
-        return plain_slots(model, ('field', 'tag', 'arg', 'result', 'error'))
+        return _a15_slots(model, False)
 
     def apply(model, s, rng):
         ns = model.namespaces[s[0]]
@@ -778,6 +800,16 @@ class _A15:
             name = fresh(model, ns, 'ZqNullAliasB')
             add_def(ns, Alias(name, TypeRef(a)), rng)
         set_field_slot_clean(model, s, TypeRef(name, nullable=True))
+
+
+@rule('A15.early', 'nullable of a nullable alias written in a member of a type that a type of another namespace extends '
+      '(such a type is populated on demand, possibly before the aliases of its own namespace)')
+class _A15e:
+    def sites(model):
+        return _a15_slots(model, True)
+
+    def apply(model, s, rng):
+        return _A15.apply(model, s, rng)
 
 
 @rule('A15.alias', 'nullable of a nullable written in an alias target (`alias B = A?`, A declared before or after B)')
@@ -809,13 +841,18 @@ class RawType(TypeRef):
     """a type reference given as text (rendered verbatim through a placeholder)"""
 
 
+_RAW_COUNTER = {}
+
+
 def _raw_rule(id, doc, texts):
     class _R:
         def sites(model):
             return plain_slots(model)
 
         def apply(model, s, rng):
-            txt = rng.choice(texts)
+            # cycle through the variants (every one is reached once the rule has been applied len(texts) times)
+            _RAW_COUNTER[id] = _RAW_COUNTER.get(id, rng.randrange(len(texts))) + 1
+            txt = texts[_RAW_COUNTER[id] % len(texts)]
             nul = rng.random() < 0.15 and not txt.startswith('Void')
             set_field_slot_clean(model, s, TypeRef('ZQRAWTYPE'))
             return [('ZQRAWTYPE', txt + ('?' if nul else ''))]
